@@ -98,11 +98,12 @@ func TestVerifC19(t *testing.T) {
 	// sleeps through the deadline shows up as a verdict before it can wedge a
 	// streaming case (see retryplan.RunGuarded)
 	_ = runFam(t, r, "unary", retryplan.BiasUnary, r.N(800, 10000)/light()) &&
+		runFam(t, r, "overflow", retryplan.BiasOverflow, r.N(600, 8000)/light()) &&
 		runFam(t, r, "timing", retryplan.BiasTiming, r.N(2000, 30000)/light()) &&
 		runFam(t, r, "throttle", retryplan.BiasThrottle, r.N(1200, 16000)/light())
 	r.Finish(vlib.Spec{
 		Level: "exploration",
-		Rule: "family unary: 1-3 unary calls with short deadlines (1-5 s) against backoffs up to 2.5 s x multiplier; family timing: 1-3 mostly unary calls, 72% of attempts fail trailers-only, 40% of those carry grpc-retry-pushback-ms (valid 0..2^31-1, negative, malformed, repeated), policies initial 1ms-2.5s, multiplier 0.5-3, max below/above initial, maxAttempts 2-7 capped by WithMaxCallAttempts, deadlines 1-60 s; family throttle: 5-14 calls sharing a bucket of maxTokens 1-8 (also 2.5/7.5), tokenRatio 0.001-2; " +
+		Rule: "family unary: 1-3 unary calls with short deadlines (1-5 s) against backoffs up to 2.5 s x multiplier; family overflow: policies whose uncapped backoff initial x multiplier^k leaves the int64-nanosecond / float64 range at a reached retry (multiplier 1e10..1e300, or 10..1000 with chains of up to 24 retries under WithMaxCallAttempts(25)) while maxBackoff is 1 ms-3 s; family timing: 1-3 mostly unary calls, 72% of attempts fail trailers-only, 40% of those carry grpc-retry-pushback-ms (valid 0..2^31-1, negative, malformed, repeated), policies initial 1ms-2.5s, multiplier 0.5-3, max below/above initial, maxAttempts 2-7 capped by WithMaxCallAttempts, deadlines 1-60 s; family throttle: 5-14 calls sharing a bucket of maxTokens 1-8 (also 2.5/7.5), tokenRatio 0.001-2; " +
 			"oracle: virtual time from failure-visible to next HEADERS == pushback exactly / within [0.8,1.2] x min(initial x mult^k, max) (-2ns/+2ns truncation slack) / 0 for transparent retries; no retry after bad pushback; retry refused iff the token interval model is <= maxTokens/2 after the removal (judged only when the whole interval is on one side); backoff past the deadline => no attempt and DEADLINE_EXCEEDED by the deadline; non-trivial = a call with >=1 judged delay or throttle decision; distinct = (family, sequence of B<k> / P<size> / T0 / thr:<decision>:<side>)",
 		Assumptions: []string{
 			"zero virtual processing time between timer expiry and the HEADERS frame reaching the scripted server (synctest)",
